@@ -288,7 +288,16 @@ class World:
             return ("error", e)
 
     def observe(self):
-        o = {"cur_kind": self.cur_kind(), "vars": {}, "nxt": {}}
+        o = {"cur_kind": self.cur_kind(), "vars": {}, "nxt": {}, "maps": {}}
+        ido = {id(e): i for i, e in self.el.items()}
+        for m in ("states", "next_states", "actions", "disturbances"):
+            try:
+                d = getattr(self.net, m)
+                o["maps"][m] = [ido.get(id(e), "?") for e in d]
+                if any(v is not getattr(e, m) for e, v in d.items()):
+                    o["maps"][m].append("(not the element's own dictionary)")
+            except BaseException as e:  # noqa: BLE001
+                o["maps"][m] = ["error", type(e).__name__]
         for i in self.innet():
             e = self.el[i]
             groups = [g for g in (e.states, e.actions, e.disturbances) if g]
@@ -430,6 +439,11 @@ def replay_transition(t: dict, same_names: bool = False, recycle: bool = False) 
         for i, k in t["nxt"].items():
             if k and obs["nxt"].get(i) != k and exp[0] != "error":
                 out["c13"].append(["next states of " + i + " have kind " + str(obs["nxt"].get(i)) + ", expected " + k, c])
+    # ---- beyond the listed properties: the network-level variable maps list the elements the specification lists
+    if "maps" in t and (last[0] != "error" or exp[0] == "error") and not same_names:
+        for m, want_ in t["maps"].items():
+            if obs["maps"].get(m) != list(want_):
+                out["drift"].append([f"net.{m} lists {obs['maps'].get(m)}, the specification {list(want_)}", c])
     # ---- C19: a function has no free symbols and reflects the most recent step
     if exp[0] == "function" and last[0] == "function":
         try:
